@@ -439,6 +439,59 @@ func ruleExactFilter(c *Ctx) {
 					}
 					return false
 				})
+				// the step may be made by a local prologue closure the callback calls (advance := func() (skip bool) {…}):
+				// start at that call, with its result fixed to the value it returns after stepping
+				var stepClosure types.Object
+				stepResult := byte('?')
+				if len(steps) == 0 {
+					for _, cl := range fg.Find(func(n ast.Node) bool { _, ok := n.(*ast.CallExpr); return ok }) {
+						call := cl.Node.(*ast.CallExpr)
+						id, ok := ast.Unparen(call.Fun).(*ast.Ident)
+						if !ok || len(call.Args) != 0 {
+							continue
+						}
+						plit, ok := ast.Unparen(resolveLocal(info, fn.Decl.Body, id)).(*ast.FuncLit)
+						if !ok {
+							continue
+						}
+						pfg := newFlowGraph(info, plit.Body)
+						psteps := pfg.FindCalls(func(f *types.Func, pc *ast.CallExpr) bool {
+							if f == nil {
+								return false
+							}
+							for _, a := range pc.Args {
+								if t := info.TypeOf(a); t != nil && isNamedType(t, colPath, "Cursor") {
+									return true
+								}
+							}
+							return false
+						})
+						if len(psteps) == 0 {
+							continue
+						}
+						// the constant the closure returns after it stepped
+						vals := map[byte]bool{}
+						for _, rl := range pfg.Returns() {
+							r := rl.Node.(*ast.ReturnStmt)
+							if len(r.Results) != 1 {
+								continue
+							}
+							if after, _ := pfg.Reach(PathQuery{From: psteps[0], Target: func(l Loc) bool { return l.Block == rl.Block && l.Idx == rl.Idx }}); after {
+								vals[boolConst(info, r.Results[0])] = true
+							}
+						}
+						if len(vals) == 1 && (vals['0'] || vals['1']) {
+							stepClosure = info.ObjectOf(id)
+							if vals['1'] {
+								stepResult = '1'
+							} else {
+								stepResult = '0'
+							}
+							steps = append(steps, cl)
+							break
+						}
+					}
+				}
 				if len(steps) == 0 {
 					c.und(key, lit.Pos(), "the per-item cursor step was not found in this callback, so the paths of a counted item cannot be enumerated")
 				} else {
@@ -470,6 +523,11 @@ func ruleExactFilter(c *Ctx) {
 						Atom: func(e ast.Expr) byte {
 							if isPred(e) {
 								return '1'
+							}
+							if call, ok := ast.Unparen(e).(*ast.CallExpr); ok && stepClosure != nil {
+								if id, ok := ast.Unparen(call.Fun).(*ast.Ident); ok && info.ObjectOf(id) == stepClosure {
+									return stepResult
+								}
 							}
 							return '?'
 						},
@@ -1064,7 +1122,30 @@ func ruleRemoveRevisits(c *Ctx) {
 					case *ast.SliceExpr:
 						// X = X[:len(X)-1] preceded in the same block by X[i] = X[len(X)-1]
 						if sameExpr(info, r.X, X) && r.Low == nil && r.High != nil {
-							if hb, ok := ast.Unparen(r.High).(*ast.BinaryExpr); ok && hb.Op == token.SUB {
+							high := ast.Unparen(r.High)
+							// `last := len(X) - 1; …; X = X[:last]`: the nearest preceding definition in the same statement list
+							if hid, ok := high.(*ast.Ident); ok {
+								if blk, ok := c.Parent(as).(*ast.BlockStmt); ok {
+									for k := len(blk.List) - 1; k >= 0; k-- {
+										if blk.List[k].End() > as.Pos() {
+											continue
+										}
+										if das, ok := blk.List[k].(*ast.AssignStmt); ok && len(das.Lhs) == len(das.Rhs) {
+											found := false
+											for di, dl := range das.Lhs {
+												if did, ok := ast.Unparen(dl).(*ast.Ident); ok && info.ObjectOf(did) == info.ObjectOf(hid) {
+													high = ast.Unparen(das.Rhs[di])
+													found = true
+												}
+											}
+											if found {
+												break
+											}
+										}
+									}
+								}
+							}
+							if hb, ok := high.(*ast.BinaryExpr); ok && hb.Op == token.SUB {
 								swapped := false
 								inspectNoLit(fs.Body, func(z ast.Node) bool {
 									if sw, ok := z.(*ast.AssignStmt); ok && len(sw.Lhs) == 1 && sw.End() <= as.Pos() {
